@@ -139,6 +139,12 @@ pub fn resolve_data_element(
     let data_elem = defs.data_elems.get_mut(item_ref);
     let prev_encoding = data_elem.encoding.clone();
 
+    #[cfg(hlorenzi_customasm_verif)]
+    {
+        crate::verif::note("prev", crate::verif::bigint_of(&prev_encoding));
+        crate::verif::note("hasvalue", crate::verif::V::B(maybe_encoding.is_some()));
+    }
+
 
     if let Some(ref encoding) = maybe_encoding
     {
